@@ -89,4 +89,10 @@ def writerChunk (c : ColSpec) (cats : List Cell) (pages : List (List Cell)) : Li
   (if c.dictItem.isSome then [(writerDictInfo c cats, writerDictBody c cats)] else [])
     ++ pages.map fun cells => (writerPageInfo c cells, writerPageBody c cells)
 
+/-- `ColumnMetaData.encodings` and `encoding_stats` as `write_column` records them -/
+def writerEncodings (c : ColSpec) : List Nat := if c.dictItem.isSome then [ENC_PLAIN, ENC_RLE_DICTIONARY] else [ENC_PLAIN]
+def writerEncStats (c : ColSpec) (npages : Nat) : List (Nat × Nat × Nat) :=
+  if c.dictItem.isSome then [(2, ENC_PLAIN, 1), (if c.v2 then 3 else 0, ENC_RLE_DICTIONARY, npages)]
+  else [(if c.v2 then 3 else 0, ENC_PLAIN, npages)]
+
 end PqV.Impl
